@@ -41,6 +41,75 @@ theorem rm_model_exact (s : Acts.Deploy.St) (id : String) :
     (∀ e ∈ (Acts.Deploy.rm s id).events, e.mid ≠ id ∧ e ∈ s.events) ∧ (∀ e ∈ s.events, e.mid ≠ id → e ∈ (Acts.Deploy.rm s id).events) :=
   ⟨(Acts.C20.rm_exact s id).1, (Acts.C20.rm_exact s id).2.1⟩
 
+-- ------------------------------------------------------------------ histories
+
+/-- what happens to the rows over the life of an engine: a process is started, one of its tasks is written, it ends -/
+inductive Ev where
+  | start (p : String)
+  | task (p : String) (tid : String)
+  | terminal (p : String)
+  deriving Repr
+
+/-- a start is refused for a pid that has a row (C13); a task row is written only for a process that has its row (`Runtime::push` of a
+process that is gone writes nothing); the end of a process applies the retention rule -/
+def step (keep : Bool) (s : St) : Ev → St
+  | .start p => if s.procs.contains p then s else { s with procs := p :: s.procs }
+  | .task p tid => if s.procs.contains p then { s with tasks := ⟨p ++ ":" ++ tid, p⟩ :: s.tasks } else s
+  | .terminal p => onTerminal keep s p
+
+def run (keep : Bool) (s : St) (es : List Ev) : St := es.foldl (step keep) s
+
+/-- no task row without its process row -/
+def NoOrphans (s : St) : Prop := ∀ t ∈ s.tasks, t.pid ∈ s.procs
+
+theorem step_no_orphans (keep : Bool) (s : St) (e : Ev) (h : NoOrphans s) : NoOrphans (step keep s e) := by
+  cases e with
+  | start p =>
+    simp only [step]
+    split
+    · exact h
+    · intro t ht; exact List.mem_cons_of_mem _ (h t ht)
+  | task p tid =>
+    simp only [step]
+    split
+    · rename_i hp
+      intro t ht
+      simp only [List.mem_cons] at ht
+      rcases ht with rfl | ht
+      · simpa using hp
+      · exact h t ht
+    · exact h
+  | terminal p =>
+    simp only [step, onTerminal]
+    split
+    · intro t ht
+      simp only [removeProc, List.mem_filter, bne_iff_ne, ne_eq] at ht ⊢
+      exact ⟨h t ht.1, ht.2⟩
+    · exact h
+
+/-- **Retention over histories** (K3: every sequence of starts, task writes and endings, both settings): the store never holds a task row
+whose process row is gone — whatever the order in which interleaved processes end -/
+theorem run_no_orphans (keep : Bool) (s : St) (es : List Ev) (h : NoOrphans s) : NoOrphans (run keep s es) := by
+  induction es generalizing s with
+  | nil => exact h
+  | cons e es ih => exact ih (step keep s e) (step_no_orphans keep s e h)
+
+/-- with the default configuration a process that has ended and was not started again has no row left -/
+theorem ended_leaves_nothing (s : St) (p : String) :
+    p ∉ (step false s (.terminal p)).procs ∧ ∀ t ∈ (step false s (.terminal p)).tasks, t.pid ≠ p := by
+  simp only [step]
+  rw [(retention_rule s p).1]
+  exact ⟨(remove_exact s p).2.2.1, fun t ht => ((remove_exact s p).1 t ht).1⟩
+
+/-- with `keep_processes` no event ever deletes a row -/
+theorem keep_is_monotone (s : St) (e : Ev) : (∀ q ∈ s.procs, q ∈ (step true s e).procs) ∧ (∀ t ∈ s.tasks, t ∈ (step true s e).tasks) := by
+  cases e with
+  | start p => simp only [step]; split <;> exact ⟨fun q hq => by simp [hq], fun t ht => ht⟩
+  | task p tid => simp only [step]; split <;> exact ⟨fun q hq => hq, fun t ht => by simp [ht]⟩
+  | terminal p => simp only [step]; rw [(retention_rule s p).2.1]; exact ⟨fun q hq => hq, fun t ht => ht⟩
+
+example : (run false ⟨[], [], []⟩ [.start "p1", .task "p1" "$", .start "p2", .task "p2" "$", .terminal "p1", .task "p1" "late"]).tasks = [⟨"p2:$", "p2"⟩] := by decide
+
 /-- non-vacuity -/
 example : (removeProc ⟨["p1", "p2"], [⟨"p1:$", "p1"⟩, ⟨"p2:$", "p2"⟩, ⟨"p1:a", "p1"⟩], [("m1", "p1")]⟩ "p1").tasks = [⟨"p2:$", "p2"⟩] := by decide
 
